@@ -80,6 +80,7 @@ reg(Prop("C06", "yields and seasonal totals agree with the daily tables",
     "every strategy incl. net + pre-irrigation + seasonal cap, crops that die early"))
 
 DAY_SUITE = [("day", 3000, 40000)]
+DAY_RUN_SUITE = [("day", 3000, 40000), ("runc", 40, 400)]
 GEN_NOTE = ("the tables StateFields.v / StoreSites.v are REGENERATED from /repo's source text on every run by the fail-closed ast translator harness/gen_facts.py "
             "(alias rules: plain assignment, attribute, basic index, tuple unpacking, per-function return summaries; heap-mediated aliasing and callables held in variables are not tracked) — the translator is trusted")
 
@@ -114,7 +115,7 @@ def _c08_monitor(ctx):
 
 
 reg(Prop("C08", "seasons are independent when the off-season is not simulated",
-    DAY_SUITE,
+    DAY_RUN_SUITE,
     _c08_monitor,
     ["all theorems 'Closed under the global context' (finite tables, vm_compute lifted by forallb_forall)", GEN_NOTE,
      "the whitelist carried_ok (21 fields not reset but dead or re-initialised on day 1) is justified by reading the code, field by field, in proofs/GenFactsOK.v; day1_dead in proofs/DayP.v proves it on the Day.v model under named per-process hypotheses"],
@@ -245,7 +246,7 @@ reg(Prop("C16", "every valid configuration runs to completion with finite output
 
 reg(Prop("C18", "soil profile and initial water content are built as specified",
     [("soilinit", 2500, 20000)],
-    worker_mon("C18", monitors2.worker_C18, 120, 1500, timeout=300, strict=lambda r: False),
+    worker_mon("C18", monitors2.worker_C18, 120, 1500, payload=lambda c, i: {"cfg": c, "prehistory": i % 4 == 3}, timeout=300, strict=lambda r: False),
     [R_AX, "FloatAxioms.* through the interval tactic (texture boxes)",
      "modelled: Soil (built-in ladder read through the real object, add_layer, add_layer_from_texture, fill_nan), deepening loop, create_soil_profile, initial water content (Init/SoilBuild.v); pandas ffill/map/groupby-mean (Kahan) are list functions tied by the suite; water-table overrides of the initial content are not modelled"],
     [EXACT, "geometry theorem for whole-centimetre thickness lists; texture ordering proved on five boxes of the calibrated range (texture_ordered_partial), refuted at the corners (texture_ordered_refuted)"],
@@ -253,7 +254,7 @@ reg(Prop("C18", "soil profile and initial water content are built as specified",
     replay=lambda d: _base.replay_worker(monitors2.worker_C18, d)))
 
 reg(Prop("C20", "disabled features and neutral settings are inert",
-    [("evap", 4000, 60000), ("rainirr", 6000, 60000), ("infiltration", 4000, 40000), ("roots", 3000, 30000), ("calendar", 2000, 20000), ("day", 2000, 30000)],
+    [("evap", 4000, 60000), ("rainirr", 6000, 60000), ("infiltration", 4000, 40000), ("roots", 3000, 30000), ("calendar", 2000, 20000), ("day", 2000, 30000), ("runc", 40, 400)],
     worker_mon("C20", monitors2.worker_C20, 22, 300, timeout=900, method=lambda r: r.choice([0, 0, 0, 1, 2, 3, 4, 5])),
     [R_AX, WATER_NOTE, "the curve-number flag gates the percentage at the call site in run_single_timestep (Day.v arg_rp, tied by the day replay)"],
     [EXACT, "neutral irrigation settings: 0 <= MaxIrr, AppEff <= 200"],
